@@ -2143,6 +2143,10 @@ func (vm *Thread) callBytecodeClosure(closure *BytecodeClosure, callInfo *CallSi
 	vm.ipSet(&function.Instructions[0])
 	vm.upvalues = closure.Upvalues
 
+	if float64(vm.spOffset()) > 0.7*float64(len(vm.stack)) {
+		vm.growValueStack()
+	}
+
 	return value.Undefined
 }
 
